@@ -97,6 +97,10 @@ func c09Specs() []c09Spec {
 			Threads: [][]c09Op{{{Kind: "remove", MB: m2, Ref: "init2"}, {Kind: "add", MB: storeBoxes[2], Size: 600}}, {{Kind: "list", MB: m1}}}, Bound: [2]int{2, 3}},
 		{ID: "S25-mem-maxkb-purge-then-add-that-fits", Store: sys.StoreSpec{Backend: "mem", MaxKB: 1}, Init: []c09Op{{Kind: "add", MB: m1, Size: 300}, {Kind: "add", MB: m2, Size: 300}, {Kind: "add", MB: m2, Size: 300}},
 			Threads: [][]c09Op{{{Kind: "purge", MB: m2}, {Kind: "add", MB: storeBoxes[2], Size: 600}}, {{Kind: "list", MB: m1}}}, Bound: [2]int{2, 3}},
+		// nothing but readers: two listings and a get of the same mailbox at the same time (what they
+		// share must be shared safely; the free-running race pass runs this one too)
+		{ID: "S26-mem-list-list-getlatest", Store: mem, Init: []c09Op{add(m1), add(m1)},
+			Threads: [][]c09Op{{{Kind: "list", MB: m1}}, {{Kind: "list", MB: m1}}, {{Kind: "get", MB: m1, Ref: "latest"}}}, Bound: [2]int{2, 3}},
 		{ID: "S1-mem-maxkb-add-remove-add", Store: memKB, Init: []c09Op{add(m1)},
 			Threads: [][]c09Op{{add(m1)}, {{Kind: "remove", MB: m1, Ref: "init1"}}, {add(m1)}}, Bound: [2]int{2, 3}},
 		{ID: "S16-mem-maxkb-fresh-mailbox-add-purge-add", Store: memKB, Init: nil,
